@@ -42,6 +42,10 @@ pub fn profile() -> Profile {
     p.vin_as_storage = 1;
     p.out_as_storage = 2;
     p.keyword_names = 3;
+    p.overrides = 3;
+    p.wg_override = 4;
+    p.ov_sized_array = 3;
+    p.struct_helpers = 3;
     p
 }
 
@@ -58,10 +62,24 @@ pub fn build_full(ch: &mut Ch) -> Shader {
     if h.chance(4, 8) && !sh.entries.is_empty() {
         let mut hh = Ch::new(&head[40..]);
         let (osh, _) = crate::props::c12::build(&mut hh);
-        sh.overrides = osh.overrides;
+        // C12's overrides are used by every entry point; the shared generator's own overrides (which
+        // size workgroups and arrays) stay
+        let own = sh.overrides.len();
+        let mut ids: Vec<u16> = sh.overrides.iter().filter_map(|o| o.id).collect();
+        for mut o in osh.overrides {
+            if let Some(i) = o.id {
+                if ids.contains(&i) {
+                    o.id = None;
+                } else {
+                    ids.push(i);
+                }
+            }
+            sh.overrides.push(o);
+        }
         let uses: Vec<Stmt> = sh
             .overrides
             .iter()
+            .skip(own)
             .map(|o| {
                 Stmt::Raw(match o.ty {
                     Sc::Bool => format!("if ({}) {{ acc = acc + 1.0; }}", o.name),
@@ -123,6 +141,18 @@ pub fn build_full(ch: &mut Ch) -> Shader {
             let old = sh.overrides[i].name.clone();
             used.insert(new.to_lowercase());
             sh.overrides[i].name = new.clone();
+            for e in sh.entries.iter_mut() {
+                for d in e.wg.iter_mut() {
+                    if matches!(d, WgDim::Override(n) if *n == old) {
+                        *d = WgDim::Override(new.clone());
+                    }
+                }
+            }
+            for (_, ov) in sh.ov_sized.iter_mut() {
+                if *ov == old {
+                    *ov = new.clone();
+                }
+            }
             // defaults of later overrides may refer to the renamed one (`old * 0.5`, `old / 2u`)
             for o2 in sh.overrides.iter_mut() {
                 if let Some(init) = &mut o2.init {
@@ -234,6 +264,9 @@ impl ExecProp for C01 {
         stats.class_if(o.rustfmt, "rustfmt_on");
         stats.class_if(o.validate != Validate::Off, "validation_on");
         stats.class_if(!b.sh.overrides.is_empty(), "has_overrides");
+        stats.class_if(b.sh.entries.iter().any(|e| e.wg.iter().any(|d| matches!(d, WgDim::Override(_)))), "workgroup_size_from_override");
+        stats.class_if(!b.sh.ov_sized.is_empty(), "override_sized_workgroup_array");
+        stats.class_if(!b.sh.raw_items.is_empty(), "struct_and_pointer_helper_functions");
         stats.class_if(!b.sh.consts.is_empty(), "has_constants");
         stats.class_if(crate::props::layouts::has_push(&b.sh).is_some(), "has_push_constant");
         stats.class_if(b.sh.entries.iter().any(|e| e.stage == Stage::Vertex && !e.params.iter().any(|p| matches!(p, EParam::Struct { .. })) && !b.sh.overrides.is_empty()), "vertex_entry_no_struct_params_with_overrides");
